@@ -165,6 +165,7 @@ def _job(seed, run, env, ops, timeout=240) -> dict:
 
 def generate(seed: int, run: int, tier: str) -> dict:
     rng = core.rng_for(seed, PROP, run, "gen")
+    rng2 = core.rng_for(seed, PROP, run, "gen2")
     mods = modules()
     env = rng.choice(ENVS)
     style = rng.choice(["perm", "perm", "jumps", "mixed", "mixed", "deps_then_jump", "heavy_cache", "create", "nearby_calls", "args_early"])
@@ -203,7 +204,8 @@ def generate(seed: int, run: int, tier: str) -> dict:
         if rng.random() < 0.05:
             # one or two pages fail in a row before the caller recovers, either by assigning SymPy's flag
             # or through the library's own reset_sympy_evaluation() ("restores auto processing")
-            ops.append({"op": "failed_docs_page", "m": rng.choice(mods), "repeat": rng.choice([1, 2]), "recover": rng.choice(["assign", "api"])})
+            # (drawn from a stream of their own, so that the rest of the schedule is what it was before these variants existed)
+            ops.append({"op": "failed_docs_page", "m": rng.choice(mods), "repeat": rng2.choice([1, 2]), "recover": rng2.choice(["assign", "api"])})
         if rng.random() < 0.06:
             ops.append({"op": "churn_dims", "k": rng.choice([20, 100, 400])})
         if rng.random() < 0.05:
@@ -259,6 +261,12 @@ def generate(seed: int, run: int, tier: str) -> dict:
     rng.shuffle(order)
     for t in order:
         ops.append({"op": "observe", "m": t, "use_prepared": True} if style == "args_early" else {"op": "observe", "m": t, "tests": tier == "thorough" and rng.random() < 0.3})
+    if rng2.random() < float(os.environ.get("VERIF_C03_NOCACHE_P", "0.06")) and n_pre <= 5 and style != "args_early":
+        # environment fault: the whole process runs with SymPy's cache switched off (SYMPY_USE_CACHE=no);
+        # the reference is the canonical history under the same environment. Only short histories: a
+        # catalogue import costs several times more without the cache (a timeout is inconclusive, never a verdict)
+        env = {"hashseed": env["hashseed"], "cache": 1000, "environ": {"SYMPY_USE_CACHE": "no"}}
+        return _job(seed, run, env, ops, timeout=90)
     return _job(seed, run, env, ops)
 
 
@@ -590,6 +598,9 @@ def child_run(job: dict) -> dict:
             raise ValueError(kind)
         events.append([step, kind, op.get("m") or op.get("prefix") or op.get("kind") or "", outcome])
     flag_ok = bool(global_parameters.evaluate)
+    from .c14_vectors import _cache_really_off  # pylint: disable=import-outside-toplevel
+    if _cache_really_off():
+        faults["sympy_cache_off_run"] = 1
     fired = faults["jump"] + faults["clear_cache"] + faults["create"] + faults["import_before"] + faults["call_before"]
     return {
         "events": events,
